@@ -230,6 +230,23 @@ def run(ctx: Ctx):
             else:
                 _check_threshold(ctx, g, n, t, lenbuf, hsize, cons)
 
+    # ------------------------------------------------------------------ R7
+    ctx.rule("C05-R7", "after a chunk was appended the framing loop is entered unless the buffer "
+                       "is shorter than a header", floor=1)
+    for n, operand in appends:
+        cons = "work_read_queue:framing-entered"
+        ctx.inst(cons)
+        short = g.guard_edges(lambda t: at.label_when(
+            t, lambda a: True if (a.op == ">" and a.value == lenbuf and _int(a.subject) == hsize) else
+            (False if (a.op == ">" and a.subject == lenbuf and _int(a.value) == hsize - 1) else None)))
+        r = g.reach([d for l, d in n.succ if l != "exc"], blocked=[head], blocked_edges=short)
+        if any(o in r for o in outer) or g.exit in r:
+            ctx.fail(cons, g.loc(n), f"after appending a received chunk the worker can go back to "
+                     f"waiting for the next chunk without looking at the buffer although it holds "
+                     f">= {hsize} bytes (the skip is not conditioned on len({BUF}) < {hsize}): a "
+                     f"message whose last bytes arrive in a short read stays undelivered until more "
+                     f"data comes, which on an idle link is never")
+
     # ------------------------------------------------------------------ R1
     ctx.rule("C05-R1", "every cycle of the framing loop shortens the buffer by a positive "
                        "amount, sets the wait flag, or leaves", floor=1)
